@@ -6,6 +6,8 @@
 // the answers of HistoricReader / HistoricNodeReader are classified against statehist:
 //
 //	retained historical root (history id+1 is stored, indexing idle)  -> reader handed out, exact values
+//	   (HistoricReader: stored in the state freezer; HistoricNodeReader: stored in the trienode freezer;
+//	    each freezer must hold at least the configured number of newest histories)
 //	disk layer / diff layer roots                                      -> refused, or exact values
 //	pruned roots, roots of abandoned forks, unknown roots              -> refused (never data)
 //	any reader at any time (held across extension, rollback, reopen)   -> error or exact value
@@ -86,6 +88,8 @@ type dut struct {
 	// shape
 	pruned, rolledBack, reopened, backlog, heldUsed bool
 	toGenesis                                       bool // a rollback to state id 0 happened
+	tailsDiverged                                   bool // the two history stores had different tails at some check
+	maxHead                                         int  // highest head id the case has reached
 	rollbacks                                       int
 }
 
@@ -156,6 +160,7 @@ func (d *dut) extend(n int) bool {
 			return false
 		}
 		d.chain = append(d.chain, e.Child)
+		d.maxHead = max(d.maxHead, len(d.chain)-1)
 	}
 	d.logf("extend %d -> head id %d", n, len(d.chain)-1)
 	d.r.Count("transitions", n)
@@ -327,12 +332,56 @@ func (d *dut) checkAll(frac int, ctx string) {
 	if ok && first > 1 {
 		d.pruned = true
 	}
+	// The trienode freezer has its own tail. Both stores are truncated by the same rule
+	// (disklayer.writeHistory: keep the newest `limit` histories), but the truncation of a
+	// store is skipped while the persistent state id is behind the new tail, and that id is
+	// advanced by the background flusher: within one disklayer.commit the state store may skip
+	// the truncation and the trienode store perform it (or vice versa). A trienode history
+	// that was truncated according to TrienodeHistory is "no longer retained" for
+	// HistoricNodeReader although the state store still holds the state history of that id.
+	// Every reader kind is therefore classified by the window of its own store.
+	tfirst, tlast, tok := 0, 0, false
+	if d.cfg.TrieHist >= 0 {
+		f, l, on, err := d.db.VerifTrienodeHistoryWindow()
+		if err != nil || !on {
+			d.viol("harness:trienode-window-unreadable", fmt.Sprintf("%s: trienode freezer window: enabled=%v err=%v", ctx, on, err))
+			return
+		}
+		tfirst, tlast, tok = int(f), int(l), l >= f
+		if tok && tlast != disk {
+			d.viol("history-head-mismatch:trienode", fmt.Sprintf("%s: newest trienode history id %d but the disk layer is at id %d", ctx, tlast, disk))
+			return
+		}
+		switch {
+		case ok && tok && tfirst > first:
+			d.tailsDiverged = true
+			d.r.Count("trienode_tail_ahead_of_state_tail", 1)
+		case ok && tok && tfirst < first:
+			d.tailsDiverged = true
+			d.r.Count("state_tail_ahead_of_trienode_tail", 1)
+		}
+	}
+	// Lower bound of retention (what the configuration promises): a store configured with
+	// limit N is only ever truncated to first = flushedID-N+1, and no flushed id exceeds the
+	// highest head id the case has reached.
+	if lim := int(d.cfg.Hist); lim > 0 {
+		bound := max(1, d.maxHead-lim+1)
+		if ok && first > bound {
+			d.viol("history-over-pruned:state", fmt.Sprintf("%s: StateHistory=%d, highest head id so far %d, but the oldest state history is %d (> %d)", ctx, lim, d.maxHead, first, bound))
+			return
+		}
+		if tok && tfirst > bound {
+			d.viol("history-over-pruned:trienode", fmt.Sprintf("%s: TrienodeHistory=%d, highest head id so far %d, but the oldest trienode history is %d (> %d)", ctx, lim, d.maxHead, tfirst, bound))
+			return
+		}
+	}
 	for i, st := range d.chain {
 		if d.bad {
 			return
 		}
 		// history i+1 (transition i -> i+1) must be stored for state i to be readable
 		retained := ok && i+1 >= first && i+1 <= last
+		tretained := tok && i+1 >= tfirst && i+1 <= tlast
 		sr, serr := d.db.HistoricReader(st.Root)
 		var nr *pathdb.HistoricalNodeReader
 		var nerr error
@@ -340,44 +389,66 @@ func (d *dut) checkAll(frac int, ctx string) {
 			nr, nerr = d.db.HistoricNodeReader(st.Root)
 		}
 		where := fmt.Sprintf("%s: canonical id %d (histories %d..%d, disk %d, head %d)", ctx, i, first, last, disk, len(d.chain)-1)
-		if tf, tl, tok, terr := d.db.VerifTrienodeHistoryWindow(); tok {
-			sf, sl, _ := d.db.VerifStateHistoryWindow()
-			where += fmt.Sprintf(" [DIAG state ids %d..%d trienode ids %d..%d err=%v]", sf, sl, tf, tl, terr)
+		if d.cfg.TrieHist >= 0 {
+			where = fmt.Sprintf("%s: canonical id %d (state histories %d..%d, trienode histories %d..%d, disk %d, head %d)", ctx, i, first, last, tfirst, tlast, disk, len(d.chain)-1)
 		}
+		// state history reader
 		switch {
 		case retained:
 			if serr != nil {
 				d.viol("retained-root-refused:state", fmt.Sprintf("%s: HistoricReader refused a retained root: %v", where, serr))
 				return
 			}
-			if d.cfg.TrieHist >= 0 && nerr != nil {
-				d.viol("retained-root-refused:trienode", fmt.Sprintf("%s: HistoricNodeReader refused a retained root: %v", where, nerr))
-				return
-			}
-			d.readState(st, i, sr, nr, frac, true, where)
+			d.readState(st, i, sr, nil, frac, true, where)
 			d.r.Count("retained_roots_read", 1)
-			if d.rng.Intn(6) == 0 && len(d.held) < 6 {
-				d.held = append(d.held, heldReader{d.rollbacks, 0, i, st, sr, nr})
-			}
 		case i < first-1 || !ok && i < disk:
 			// pruned: must not yield data
-			if serr == nil || nerr == nil && nr != nil {
-				d.readPruned(st, i, sr, nr, where)
+			if serr == nil {
+				d.readPruned(st, i, sr, nil, where)
 			}
 			d.r.Count("pruned_roots_probed", 1)
 		default:
 			// disk layer and diff layers: served by the regular readers; the historic readers
 			// may refuse, but whatever they return must be right
-			if serr != nil {
-				sr = nil
-			}
-			if nerr != nil {
-				nr = nil
-			}
-			if sr != nil || nr != nil {
-				d.readState(st, i, sr, nr, frac, false, where)
+			if serr == nil {
+				d.readState(st, i, sr, nil, frac, false, where)
 			}
 			d.r.Count("live_roots_probed", 1)
+		}
+		if d.bad {
+			return
+		}
+		// trienode history reader, by the trienode store's own window
+		if d.cfg.TrieHist >= 0 {
+			switch {
+			case tretained:
+				if nerr != nil {
+					d.viol("retained-root-refused:trienode", fmt.Sprintf("%s: HistoricNodeReader refused a retained root: %v", where, nerr))
+					return
+				}
+				d.readState(st, i, nil, nr, frac, true, where)
+				d.r.Count("retained_roots_read_trienode", 1)
+			case i < tfirst-1 || !tok && i < disk:
+				// pruned in the trienode store (possibly still retained in the state store)
+				if nerr == nil {
+					d.readState(st, i, nil, nr, frac, false, where) // error or exact, never other data
+				} else {
+					nr = nil
+				}
+				d.r.Count("pruned_roots_probed_trienode", 1)
+				if retained {
+					d.r.Count("roots_retained_in_state_store_only", 1)
+				}
+			default:
+				if nerr == nil {
+					d.readState(st, i, nil, nr, frac, false, where)
+				} else {
+					nr = nil
+				}
+			}
+		}
+		if retained && !d.bad && d.rng.Intn(6) == 0 && len(d.held) < 6 {
+			d.held = append(d.held, heldReader{d.rollbacks, 0, i, st, sr, nr})
 		}
 	}
 	for _, st := range d.abandoned {
@@ -691,7 +762,7 @@ func historyCase(r *vrt.Run, idx, maxLayers int) {
 	if d.bad {
 		return
 	}
-	r.Eval(fmt.Sprintf("max%d/hist%d/trie%v/cp%d/raw%v/async%v/buf%v/pruned%v/rb%v/reopen%v/backlog%v/held%v", cfg.Max, cfg.Hist, cfg.TrieHist >= 0, cfg.Checkpoint, cfg.RawKeys, cfg.Async, cfg.Buffer > 0, d.pruned, d.rolledBack, d.reopened, d.backlog, d.heldUsed))
+	r.Eval(fmt.Sprintf("max%d/hist%d/trie%v/cp%d/raw%v/async%v/buf%v/pruned%v/rb%v/reopen%v/backlog%v/held%v/tdiv%v", cfg.Max, cfg.Hist, cfg.TrieHist >= 0, cfg.Checkpoint, cfg.RawKeys, cfg.Async, cfg.Buffer > 0, d.pruned, d.rolledBack, d.reopened, d.backlog, d.heldUsed, d.tailsDiverged))
 	r.Count("histories", 1)
 	if d.pruned {
 		r.Count("histories_pruned", 1)
@@ -764,7 +835,7 @@ func concurrentReaders(d *dut) func() {
 
 func run(r *vrt.Run) {
 	log.SetDefault(log.NewLogger(log.DiscardHandler()))
-	r.Rule("one history = private memorydb+freezer pathdb with EnableStateIndexing/NoHistoryIndexDelay, random config (maxDiffLayers 1/2/4, write buffer 0..8KiB, sync/async flush, state history limit 0/8/32, trienode history off or same limit with full-value checkpoint 1/4/16, raw or hashed storage keys, optional backlog of 5-44 unindexed histories indexed after a reopen); 3-7 rounds of {extend 3-100 statehist transitions with concurrent readers, optional Commit, classify HistoricReader/HistoricNodeReader for every canonical id and 25% (thorough: all) of the touched accounts/slots/node positions, then rollback by 1-20 via Recover followed by a different fork, or reopen}; readers held across extension/rollback are re-read. signature = (config classes, pruned, rolled back, reopened, backlog, held readers used)")
+	r.Rule("one history = private memorydb+freezer pathdb with EnableStateIndexing/NoHistoryIndexDelay, random config (maxDiffLayers 1/2/4, write buffer 0..8KiB, sync/async flush, state history limit 0/8/32, trienode history off or same limit with full-value checkpoint 1/4/16, raw or hashed storage keys, optional backlog of 5-44 unindexed histories indexed after a reopen); 3-7 rounds of {extend 3-100 statehist transitions with concurrent readers, optional Commit, classify HistoricReader/HistoricNodeReader for every canonical id and 25% (thorough: all) of the touched accounts/slots/node positions, then rollback by 1-20 via Recover followed by a different fork, or reopen}; readers held across extension/rollback are re-read. signature = (config classes, pruned, rolled back, reopened, backlog, held readers used, tails of the two history stores diverged)")
 	groups := []int{1, 2, 4}
 	per := r.N(20, 1000)
 	if r.Race() {
@@ -791,6 +862,6 @@ func run(r *vrt.Run) {
 	r.Require("reopens", 5)
 	r.Require("held_readers_used", 5)
 	r.Require("pruned_roots_probed", 20)
-	r.Assume("statehist/refmpt ground truth; block number passed to Update equals the state id so that HistoryRange() yields history ids; trienode and state history use the same retention limit and are assumed to share the tail")
+	r.Assume("statehist/refmpt ground truth; block number passed to Update equals the state id so that HistoryRange() yields history ids; trienode and state history use the same retention limit; each reader kind is classified by the window of its own freezer (the tails may differ by the timing-dependent skip of a tail truncation), and each window must keep at least the configured number of newest histories")
 	r.Assume("Recover itself is judged by C17; a failing Recover ends the case")
 }
